@@ -340,3 +340,45 @@ func VH_C09_close_during_shutdown() {
 	vQuiescent(c, "C09.close2")
 	vAssert(t.closes == 1, "C09.close2.transport-closed-once")
 }
+
+// The transport cannot create the Return message for an incoming Bootstrap or Call (NewMessage
+// fails): the answer table keeps a placeholder for that id. Closing the connection afterwards - or a
+// Finish for that answer - must work like for any other answer: no panic, nothing left locked.
+func VH_C09_close_after_unsendable_return() {
+	t := &vTransport{faultNewMessage: true}
+	boot := &vRecvHook{}
+	c := vNewConn(t, capnp.NewClient(boot))
+	viaCall := vNondetBool()
+	if viaCall {
+		hook := &vRecvHook{sync: true}
+		vAssume(c.exportID.next() == 0)
+		c.exports = []*expent{{client: capnp.NewClient(hook), wireRefs: 1}}
+		m := vRecvMsg()
+		call, err := m.NewCall()
+		vAssume(err == nil)
+		call.SetQuestionId(7)
+		tgt, err := call.NewTarget()
+		vAssume(err == nil)
+		tgt.SetImportedCap(0)
+		pl, err := call.NewParams()
+		vAssume(err == nil)
+		args, err := capnp.NewStruct(pl.Segment(), capnp.ObjectSize{DataSize: 8})
+		vAssume(err == nil && pl.SetContent(args.ToPtr()) == nil)
+		vAssert(c.handleCall(c.bgctx, call, func() {}) == nil, "C09.unsendable.call-handled")
+	} else {
+		vAssert(c.handleBootstrap(c.bgctx, 7) == nil, "C09.unsendable.bootstrap-handled")
+	}
+	vQuiescent(c, "C09.unsendable.handled")
+	vRegion("return_message_not_created", t.sends == 0 && c.answers[7] != nil)
+	if vNondetBool() {
+		ferr := c.handleFinish(c.bgctx, 7, vNondetBool())
+		_ = ferr
+		vQuiescent(c, "C09.unsendable.finish")
+	}
+	t.faultNewMessage = false
+	cerr := c.Close()
+	vReach("closed")
+	vAssert(cerr == nil, "C09.unsendable.close-ok")
+	vQuiescent(c, "C09.unsendable.close")
+	vAssert(t.closes == 1, "C09.unsendable.transport-closed-once")
+}
